@@ -514,7 +514,18 @@ func (i *interpreter) feas(c *Term, timeoutMs int) (string, map[string]uint64) {
 			return res, m
 		}
 	}
-	return i.solver.Check(c, timeoutMs, i.tt.vars)
+	res, m := i.solver.Check(c, timeoutMs, i.tt.vars)
+	if res == "unknown" {
+		// sums and differences of several symbolic 64-bit values with signed
+		// comparisons can stall bit-blasting just like multiplication does:
+		// try the integer encoding (refused unless interval analysis shows
+		// that machine and mathematical semantics coincide)
+		if r2, m2, ok := i.solver.intMode(i.tt, c, time.Duration(timeoutMs)*time.Millisecond*2); ok && r2 != "unknown" {
+			atomic.AddInt64(&gstats.IntRescued, 1)
+			return r2, m2
+		}
+	}
+	return res, m
 }
 
 // assertPC adds c to the path condition and keeps the cached model honest.
